@@ -26,6 +26,7 @@ import sys
 import types
 
 ABSENT = "<absent>"
+LIST_NOT_ITEM = "<a plain list instead of the item>"
 IDS = (1, 2, 3)
 
 
@@ -166,8 +167,8 @@ def graph_canon(g, node=norm, weight=norm, attrs=False):
     """Edge list with multiplicity (sorted); isolated nodes do not exist in lian's stored graphs."""
     if g is None:
         return ABSENT
-    if isinstance(g, (list, tuple)) and len(g) == 0:
-        return []
+    if isinstance(g, (list, tuple)):
+        return LIST_NOT_ITEM
     if hasattr(g, "graph") and not hasattr(g, "edges"):
         g = g.graph
     out = []
@@ -183,9 +184,25 @@ def graph_canon(g, node=norm, weight=norm, attrs=False):
 def dict_canon(d, value=norm):
     if d is None:
         return ABSENT
-    if isinstance(d, (list, tuple)) and len(d) == 0:
-        return {}
+    if isinstance(d, (list, tuple)):
+        return LIST_NOT_ITEM
     return {str(norm(k)): value(v) for k, v in d.items()}
+
+
+def as_set(v):
+    """Canonical form of a collection that the loader stores as a set (a list passed to save counts as its set)."""
+    if isinstance(v, (set, frozenset, list, tuple)) or hasattr(v, "tolist"):
+        items = [norm(x) for x in (v.tolist() if hasattr(v, "tolist") else v)]
+        uniq = []
+        for x in _sorted(items):
+            if not uniq or uniq[-1] != x:
+                uniq.append(x)
+        return uniq
+    return norm(v)
+
+
+def dict_of_sets(d):
+    return dict_canon(d, value=as_set)
 
 
 def _cs():
@@ -354,8 +371,8 @@ def build_bit_vector(kind):
 def canon_bit_vector(m):
     if m is None:
         return ABSENT
-    if isinstance(m, (list, tuple)) and len(m) == 0:
-        return {"pos_to_id": {}, "id_to_pos": []}
+    if isinstance(m, (list, tuple)):
+        return LIST_NOT_ITEM
     return {"pos_to_id": {str(int(p)): norm(b) for p, b in m.bit_pos_to_id.items()},
             "id_to_pos": _sorted([[norm(b), int(p)] for b, p in m.id_to_bit_pos.items()])}
 
@@ -405,12 +422,14 @@ def build_space(i, variant):
 def canon_space(sp):
     if sp is None:
         return ABSENT
-    if isinstance(sp, (list, tuple)) and len(sp) == 0:
-        return []
+    if isinstance(sp, (list, tuple)):
+        return LIST_NOT_ITEM
     out = []
     for el in sp.space:
         d = {f.name: getattr(el, f.name) for f in dataclasses.fields(el)}
         d.pop("data_type_ids", None)       # analysis-time scratch, documented as not stored (never in to_dict)
+        if "value" in d:
+            d["value"] = str(d["value"])    # State.value is text by the definition of the storage format
         out.append([type(el).__name__, norm(d)])
     return out
 
@@ -555,10 +574,10 @@ def _general_families():
         attrs=["_symbol_name_to_scope_ids_loader", "_scope_id_to_symbol_info_loader", "_scope_id_to_available_scope_ids_loader"])
     add("SymbolNameToDeclIDsLoader", "_symbol_name_to_decl_ids_loader",
         lambda L, k, v: L.save_unit_symbol_name_to_decl_ids(k, v), lambda L, k: L.get_unit_symbol_name_to_decl_ids(k),
-        build_name_to_ids, dict_canon, "semantic_p1", "unit_id")
+        build_name_to_ids, dict_of_sets, "semantic_p1", "unit_id")
     add("ClassIDToMembersLoader", "_class_id_to_members_loader",
         lambda L, k, v: L.save_class_id_to_members(k, v), lambda L, k: L._class_id_to_members_loader.get_item_by_id(k),
-        build_class_members, dict_canon, "semantic_p2", "class_id")
+        build_class_members, dict_of_sets, "semantic_p2", "class_id")
     add("CFGLoader", "_cfg_loader",
         lambda L, k, v: L.save_method_cfg(k, v), lambda L, k: L.get_method_cfg(k),
         build_cfg, graph_canon, "semantic_p1", "method_id")
@@ -589,15 +608,15 @@ def _general_families():
         add("MethodSymbolToDefinedLoader[%s]" % ph, "_defined_symbols_%s_loader" % ph,
             (lambda ph: lambda L, k, v: getattr(L, "save_method_defined_symbols_" + ph)(k, v))(ph),
             (lambda ph: lambda L, k: getattr(L, "get_method_defined_symbols_" + ph)(k))(ph),
-            build_defined_symbols, dict_canon, "semantic_" + ph, "method_id")
+            build_defined_symbols, dict_of_sets, "semantic_" + ph, "method_id")
     for ph in ("p1", "p2"):
         add("MethodStateToDefinedLoader[%s]" % ph, "_defined_states_%s_loader" % ph,
             (lambda ph: lambda L, k, v: getattr(L, "save_method_defined_states_" + ph)(k, v))(ph),
             (lambda ph: lambda L, k: getattr(L, "get_method_defined_states_" + ph)(k))(ph),
-            build_defined_states, dict_canon, "semantic_" + ph, "method_id")
+            build_defined_states, dict_of_sets, "semantic_" + ph, "method_id")
     add("MethodSymbolToUsedLoader", "_used_symbols_loader",
         lambda L, k, v: L.save_method_used_symbols(k, v), lambda L, k: L.get_method_used_symbols(k),
-        build_used_symbols, dict_canon, "semantic_p1", "method_id")
+        build_used_symbols, dict_of_sets, "semantic_p1", "method_id")
     add("SymbolGraphLoader[p2]", "_symbol_graph_p2_loader",
         lambda L, k, v: L.save_method_symbol_graph_p2(k, v), lambda L, k: L.get_method_symbol_graph_p2(k),
         build_symbol_graph, graph_canon, "semantic_p2", "method_id")
@@ -871,6 +890,7 @@ class HistoryRun:
         self.flushed = {}        # i -> True once an export happened after its last save
         self.snap = {}           # i -> variant | UNSPEC    (what the files promise since the last export_indexing)
         self.versions = {}       # i -> every variant saved so far, oldest first
+        self.cache_survived_save = {}   # i -> the item cache still held the item right after its last save
         self.got_since_save = {}  # i -> was the item read since its last save (this loader)
         self.failures = []
         self.reads = 0
@@ -878,6 +898,23 @@ class HistoryRun:
         self.output = []
         self.nbundles = 0
         self.auto_exports = 0
+        self.wm = install_write_monitor()
+        self.nfail0 = len(self.wm.failed)
+
+    def failed_write_of(self, L, i):
+        """The recorded failure of lian's own write of the bundle that the index of L names for item i, if any."""
+        try:
+            gl = getattr(L, self.fam.attr)
+            b = gl.item_id_to_bundle_id.get(self.fam.key(i), None)
+            if b is None or b < 0:
+                return None
+            p = gl.get_bundle_path(b)
+        except Exception:
+            return None
+        for f in reversed(self.wm.failed[self.nfail0:]):
+            if f["path"] == p and not f["injected"]:
+                return f
+        return None
 
     def fail(self, cls, famname, triple, detail, i, step, **kw):
         d = {"class": cls, "signature": "%s:%s:%s" % (famname, triple, cls), "detail": detail, "id": i, "step": step}
@@ -894,6 +931,11 @@ class HistoryRun:
         self.flushed[i] = False
         self.versions.setdefault(i, []).append(variant)
         gl = getattr(self.L, fam.attr)
+        try:
+            # an item-cache entry that outlives the save of its item is, from now on, older than the item
+            self.cache_survived_save[i] = bool(gl.item_cache.contain(fam.key(i)))
+        except Exception:
+            self.cache_survived_save[i] = False
         if gl.item_id_to_bundle_id.get(fam.key(i), None) not in (-1, None):
             # MAX_ROWS overflow: save() exported the active bundle itself
             self.auto_exports += 1
@@ -916,12 +958,18 @@ class HistoryRun:
         self.output.append(cap.text())
         return got, src
 
-    def judge(self, i, want_variant, got, src, read, step):
+    def judge(self, i, want_variant, got, src, read, step, L=None):
         if want_variant == UNSPEC:
             return
         want = self.fam.expected(i, want_variant)
         if got == want:
             return
+        if src == "bundle-file":
+            f = self.failed_write_of(L or self.L, i)
+            if f is not None:
+                return self.fail("feather-write-failed[%s]" % f["type"], self.fam.name.split("[")[0], "save-export",
+                                 "the write of %s failed (%s); item %d cannot be read back: %s" % (
+                                     os.path.basename(f["path"]), f["message"][:160], i, json.dumps(got, default=str)[:160]), i, step, source=src)
         self.classify(i, want_variant, want, got, src, read, step)
 
     def op_get(self, i, step):
@@ -951,11 +999,12 @@ class HistoryRun:
         self.output.append(cap.text())
         for i in sorted(self.snap):
             got, src = self.read(L2, i)
-            self.judge(i, self.snap[i], got, src, "freshget", step)
+            self.judge(i, self.snap[i], got, src, "freshget", step, L=L2)
         if adopt:
             self.L = L2
             self.model = dict(self.snap)
             self.flushed = {j: True for j in self.model}
+            self.cache_survived_save = {}
         return L2
 
     def closing(self, step):
@@ -974,6 +1023,12 @@ class HistoryRun:
             fn = famname
             if cls == "index-names-no-bundle" and spec.get(i) == "E":
                 cls, fn = "empty-item-never-exported", "*"
+            if cls.startswith("bundle-file-unreadable"):
+                f = self.failed_write_of(self.L, i)
+                if f is not None:
+                    self.fail("feather-write-failed[%s]" % f["type"], famname, "save-export",
+                              "the write of %s failed (%s); no file holds item %d" % (os.path.basename(f["path"]), f["message"][:160], i), i, step)
+                    continue
             self.fail(cls, fn, "save-export+index-fileread", detail, i, step)
         for i in sorted(self.model):
             self.op_get(i, step)
@@ -1000,23 +1055,13 @@ class HistoryRun:
             return self.fail("empty-item-reads-absent", "*", stage, detail, i, step, source=src)
         if got == ABSENT:
             return self.fail("item-lost[%s]" % src, famname, stage, detail, i, step, source=src)
-        # which saved version is the read closest to?
+        if src == "item-cache" and read == "get" and self.cache_survived_save.get(i):
+            return self.fail("stale-item-cache", "*", "save-get-resave-get", detail, i, step, source=src)
+        # exactly an older saved version of the same item?
         vers = self.versions.get(i, [])
-        best, best_d = want_variant, distance(got, want)
         for v in reversed(vers[:-1]):
-            if v == want_variant:
-                continue
-            d = distance(got, fam.expected(i, v))
-            if d < best_d:
-                best, best_d = v, d
-        if best != want_variant:
-            if src == "item-cache" and read == "get":
-                self.fail("stale-item-cache", "*", "save-get-resave-get", detail, i, step, source=src)
-            else:
-                self.fail("stale-content[%s]" % src, famname, "save-resave-" + stage[5:], detail, i, step, source=src)
-            if best_d == 0:
-                return
-            want = fam.expected(i, best)        # residue: judged against the version actually returned
+            if v != want_variant and fam.expected(i, v) == got:
+                return self.fail("stale-content[%s]" % src, famname, "save-resave-" + stage[5:], detail, i, step, source=src)
         if is_empty_canon(got) and not is_empty_canon(want):
             return self.fail("item-emptied", famname, stage, detail, i, step, source=src)
         for j in IDS:
@@ -1366,8 +1411,10 @@ def install_contracts():
         return result is None
 
     def err(name):
-        def make(self, result=None, **kw):
-            return ContractBroken(name, "capacity=%r resident=%r" % (getattr(self, "capacity", None), list(getattr(self, "cache", {}))[:6]), result)
+        def make(self, result):
+            return ContractBroken(name, "capacity=%r resident=%r list=%r expected by the LRU rule=%r" % (
+                getattr(self, "capacity", None), list(getattr(self, "cache", {}))[:6], (_lru_walk(self) or ["<broken links>"])[:6],
+                list(shadow(self).keys())[:6]), result)
         return make
 
     o_put, o_get, o_remove, o_clean = C.put, C.get, C.remove, C.clean
@@ -1426,14 +1473,17 @@ def install_contracts():
 
     def indexed_item_is_found(self, _id, result):
         stats.hit("GeneralLoader.get_raw_item_by_id: an indexed item is found")
-        return (_id not in self.item_id_to_bundle_id) or result is not None
+        b = self.item_id_to_bundle_id.get(_id, None)
+        if b is None or (b == -1 and _id not in self.active_bundle):
+            return True         # never saved here, or an index restored from files that names the unexported active bundle
+        return result is not None
 
     def caches_within_capacity(self):
         stats.hit("GeneralLoader: item/bundle cache sizes <= capacity")
         return len(self.item_cache.cache) <= self.item_cache.capacity and len(self.bundle_cache.cache) <= self.bundle_cache.capacity
 
     def gerr(name):
-        def make(self, _id=None, result=None):
+        def make(self, _id, result):
             return ContractBroken(name, "%s item %r -> bundle %r" % (type(self).__name__, _id, self.item_id_to_bundle_id.get(_id, None)), result)
         return make
 
@@ -1479,19 +1529,19 @@ CANON_BY_CLASS = {
     "ScopeHierarchyLoader": (_rows_stamped("unit_id"), rows_of),
     "UnitIDToExportSymbolsLoader": (_rows_stamped("unit_id"), rows_of),
     "ClassIDToMethodInfoLoader": (_rows_stamped("unit_id"), rows_of),
-    "ClassIDToMembersLoader": (_plain(dict_canon), dict_canon),
-    "SymbolNameToScopeIDsLoader": (_plain(dict_canon), dict_canon),
+    "ClassIDToMembersLoader": (_plain(dict_of_sets), dict_of_sets),
+    "SymbolNameToScopeIDsLoader": (_plain(dict_of_sets), dict_of_sets),
     "ScopeIDToSymbolInfoLoader": (_plain(dict_canon), dict_canon),
-    "ScopeIDToAvailableScopeIDsLoader": (_plain(dict_canon), dict_canon),
-    "SymbolNameToDeclIDsLoader": (_plain(dict_canon), dict_canon),
+    "ScopeIDToAvailableScopeIDsLoader": (_plain(dict_of_sets), dict_of_sets),
+    "SymbolNameToDeclIDsLoader": (_plain(dict_of_sets), dict_of_sets),
     "CFGLoader": (_plain(lambda g: graph_canon(g, weight=_cfg_weight)), lambda g: graph_canon(g, weight=_cfg_weight)),
     "BitVectorManagerLoader": (_plain(canon_bit_vector), canon_bit_vector),
     "StmtStatusLoader": (_plain(dict_canon), dict_canon),
     "SymbolStateSpaceLoader": (_plain(canon_space), canon_space),
     "CalleeParameterMapping": (_plain(lambda o: norm(o)), lambda o: ABSENT if o is None else norm(o)),
-    "MethodSymbolToDefinedLoader": (_plain(dict_canon), dict_canon),
-    "MethodStateToDefinedLoader": (_plain(dict_canon), dict_canon),
-    "MethodSymbolToUsedLoader": (_plain(dict_canon), dict_canon),
+    "MethodSymbolToDefinedLoader": (_plain(dict_of_sets), dict_of_sets),
+    "MethodStateToDefinedLoader": (_plain(dict_of_sets), dict_of_sets),
+    "MethodSymbolToUsedLoader": (_plain(dict_of_sets), dict_of_sets),
     "SymbolGraphLoader": (_plain(lambda g: graph_canon(g, weight=_cfg_weight)), lambda g: graph_canon(g, weight=_cfg_weight)),
     "StateFlowGraphLoader": (_plain(graph_canon), graph_canon),
 }
@@ -1567,6 +1617,18 @@ def _safe_read(gl, key, canon):
 MAP_ATTRS_SKIP = {"path", "schema", "options", "EdgeNodePair", "import_graph_nodes_save_path", "import_deps_save_path"}
 
 
+def _loose(x):
+    """For the generic view of map loaders: missing values dropped, flat collections compared as multisets."""
+    if isinstance(x, dict):
+        return {k: _loose(v) for k, v in x.items() if v is not None}
+    if isinstance(x, list):
+        ys = [_loose(v) for v in x]
+        if len(ys) == 2 and isinstance(ys[0], str) and isinstance(ys[1], dict):
+            return ys          # ["ClassName", {fields}]
+        return _sorted(ys)
+    return x
+
+
 def map_loader_view(obj):
     """Canonical view of the data attributes of a non-bundle loader (dicts, sets, lists, graphs, tables, scalars)."""
     import networkx as nx
@@ -1582,13 +1644,13 @@ def map_loader_view(obj):
             elif hasattr(v, "_data"):
                 out[k] = rows_of(v)
             elif isinstance(v, dict):
-                out[k] = {str(norm(a)): norm(b) for a, b in v.items()}
+                out[k] = {str(norm(a)): _loose(norm(b)) for a, b in v.items()}
             elif isinstance(v, (set, frozenset)):
                 out[k] = norm(v)
             elif isinstance(v, list) and v and hasattr(v[0], "to_dict") and not dataclasses.is_dataclass(v[0]) and not hasattr(v[0], "_schema"):
                 out[k] = [row_dict(x.to_dict()) for x in v]
             else:
-                out[k] = norm(v)
+                out[k] = _loose(norm(v))
         except Exception as e:
             out[k] = "<uncanonical %s>" % type(e).__name__
     return out
@@ -1671,7 +1733,7 @@ def compare_live_and_restored(app, rec, wm, max_fail=80):
             for got, stage, label in ((got_live, "save-get", "live loader"), (got_fresh, "save-export+index-restore-get", "fresh restored loader")):
                 if got == want:
                     continue
-                if wfail and stage != "save-get":
+                if wfail and (stage != "save-get" or (isinstance(got, tuple) and got[:1] == ("raised",))):
                     f = [x for x in wm.failed if x["path"] == bpath][-1]
                     add("%s:save-export:feather-write-failed[%s]" % (cname, f["type"]),
                         "%s item %r: the write of %s failed (%s); the %s cannot return it" % (attr, key, os.path.basename(bpath), f["message"][:120], label))
@@ -1689,5 +1751,401 @@ def compare_live_and_restored(app, rec, wm, max_fail=80):
         if a != b:
             leaves = sorted(k for k in set(a) | set(b) if a.get(k) != b.get(k))
             detail = "; ".join("%s: live %s restored %s" % (k, json.dumps(a.get(k), default=str)[:120], json.dumps(b.get(k), default=str)[:120]) for k in leaves[:3])
-            add("%s:save-export-restore-get:restored-differs[%s]" % (type(obj).__name__, ",".join(leaves[:5])), "%s: %s" % (attr, detail), {"attr": attr})
+            # the map loaders are judged by their own save/export/restore histories; on real data the difference is
+            # recorded as an observation, and only fails for a loader class those histories do not cover
+            covered = {n.split("[")[0] for n in map_families()}
+            out.setdefault("map_differences", []).append({"loader": attr, "class": type(obj).__name__, "attributes": leaves[:5], "detail": detail[:300]})
+            if type(obj).__name__ not in covered:
+                add("%s:save-export-restore-get:restored-differs[%s]" % (type(obj).__name__, ",".join(leaves[:5])), "%s: %s" % (attr, detail), {"attr": attr})
     return out
+
+
+# ---------------------------------------------------------------------------------------------------
+# in-memory map loaders (one file per loader, no caches, no bundles): save / export / restore histories
+
+def _ids(i, variant, lo=1):
+    base = 100 * i
+    return {"A": [base + lo, base + lo + 1, base + lo + 2], "B": [base + lo + 1, base + lo + 8], "E": []}[variant]
+
+
+class MapFamily:
+    def __init__(self, name, attr, save, read, build, canon=norm, single=False, mode="replace", empties=True, update=None):
+        self.name, self.attr, self.save, self.read, self.build, self.canon = name, attr, save, read, build, canon
+        self.single = single        # one global item (id 1 only)
+        self.mode = mode            # replace: the last save of an id wins; union: the item is the union of all saves
+        self.empties = empties      # False: the loader defines a save of an empty collection as "nothing to record"
+        self.update = update
+
+    def ids(self):
+        return (1,) if self.single else IDS
+
+    def expected(self, versions):
+        """versions: list of (i, variant) saved so far for this id (replace) / for all ids (union)."""
+        raise NotImplementedError
+
+
+def _build_methods_in_class(i, v):
+    cs = _cs()
+    return [cs.MethodInClass(unit_id=1, class_id=i, name="m%d" % k, stmt_id=k) for k in _ids(i, v)]
+
+
+def _build_call_format(i, v):
+    return {"A": {"unit_id": 1, "method_id": 50 + i, "stmt_id": i, "target_name": "%vv1", "target_symbol_id": 100 * i, "callee_name": "f",
+                  "callee_symbol_id": -1, "positional_args": "[{'index': 0}]", "packed_positional_args": "[]", "packed_named_args": "[]", "named_args": "[]"},
+            "B": {"unit_id": 1, "method_id": 50 + i, "stmt_id": i, "target_name": None, "target_symbol_id": 7, "callee_name": "g.h",
+                  "callee_symbol_id": 100 * i + 3, "positional_args": "[]", "packed_positional_args": "[]", "packed_named_args": "[]", "named_args": "[{'k': 1}]"}}[v]
+
+
+def _build_decl_format(i, v):
+    return {"A": {"unit_id": 1, "method_id": i, "name": "f%d" % i, "data_type": "int", "parameters": "[{'stmt_id': 5, 'name': 'p', 'data_type': None}]"},
+            "B": {"unit_id": 1, "method_id": i, "name": "g%d" % i, "data_type": None, "parameters": "[]"}}[v]
+
+
+def _build_callees(i, v):
+    cs = _cs()
+    return {cs.MethodInternalCallee(method_id=i, callee_type=k % 3, stmt_id=k, callee_symbol_id=k + 1, callee_symbol_index=k % 5) for k in _ids(i, v)}
+
+
+def _build_def_use(i, v):
+    cs = _cs()
+    ids = _ids(i, v)
+    return cs.MethodDefUseSummary(method_id=i, parameter_symbol_ids={(k, -1) for k in ids[:2]}, local_symbol_ids=set(ids),
+                                  defined_external_symbol_ids=set(ids[:1]), used_external_symbol_ids=set(ids[1:]),
+                                  return_symbol_ids=set(ids[-1:]), this_symbol_id=(ids[0] if ids else -1))
+
+
+def _build_template(i, v):
+    cs = _cs()
+    ids = _ids(i, v)
+    return cs.MethodSummaryTemplate(key=i, parameter_symbols={k: {k + 1, k + 2} for k in ids[:2]},
+                                    defined_external_symbols={k: {k + 3} for k in ids[:1]}, used_external_symbols={k: {k + 4} for k in ids[1:]},
+                                    return_symbols={k: {k + 5} for k in ids[-1:]}, key_dynamic_content={}, dynamic_call_stmts=set(ids[:1]),
+                                    this_symbols={k: {k + 6} for k in ids[:1]}, external_symbol_to_state={k: k + 7 for k in ids[:1]})
+
+
+def _build_instance(i, v):
+    cs = _cs()
+    ids = _ids(i, v)
+    return cs.MethodSummaryInstance(key=cs.CallSite(10 + i, 100 * i + 7, 20 + i), parameter_symbols={k: {k + 1} for k in ids[:2]},
+                                    defined_external_symbols={k: {k + 3} for k in ids[:1]}, used_external_symbols={k: {k + 4} for k in ids[1:]},
+                                    return_symbols={k: {k + 5} for k in ids[-1:]}, key_dynamic_content={}, dynamic_call_stmts=set(ids[:1]),
+                                    this_symbols={})
+
+
+def _canon_summary(s):
+    if s is None:
+        return ABSENT
+    d = {f.name: norm(getattr(s, f.name)) for f in dataclasses.fields(s)}
+    d.pop("raw_to_new_index", None)
+    d.pop("index_to_default_value", None)
+    return [type(s).__name__, d]
+
+
+def _build_call_graph(i, v):
+    cs = _cs()
+    g = cs.CallGraph()
+    ids = _ids(i, v)
+    for a, b in zip(ids, ids[1:]):
+        g.add_edge(a, b, a + 50)
+    if ids:
+        g.add_edge(ids[0], ids[-1], ids[0] + 60)
+        g.add_edge(ids[0], ids[-1], ids[0] + 61)
+    return g
+
+
+def _build_call_paths(i, v):
+    cs = _cs()
+    ids = _ids(i, v)
+    out = set()
+    for k in range(len(ids)):
+        out.add(cs.CallPath(tuple(cs.CallSite(a, a + 50, a + 1) for a in ids[:k + 1])))
+    return out
+
+
+def _build_grouped(i, v):
+    cs = _cs()
+    ids = _ids(i, v)
+    return cs.SimplyGroupedMethodTypes(set(ids[:1]), set(ids[1:2]), set(ids[2:]), set(), {7} if v == "A" else set(), set())
+
+
+def _build_import_graph(i, v):
+    import networkx as nx
+    cs = _cs()
+    ids = _ids(i, v)
+    g = nx.DiGraph()
+    deps = nx.DiGraph()
+    nodes = {}
+    for k in ids:
+        nodes[k] = cs.SymbolNodeInImportGraph(0, 10, k, "s%d" % k, 1)
+    for a, b in zip(ids, ids[1:]):
+        g.add_edge(a, b, weight=a % 3, site=a + 70, real_name="s%d" % b, symbol_type=10)
+        deps.add_edge(a, b)
+    return g, nodes, deps
+
+
+def _save_import_graph(L, k, val):
+    g, nodes, deps = val
+    L.save_import_graph(g)
+    L.save_import_graph_nodes(nodes)
+    L.save_import_deps(deps)
+
+
+def _read_import_graph(L, k):
+    g = L.get_import_graph()
+    if g is None:
+        return None
+    return (g, L.get_import_graph_nodes(), L.get_import_deps())
+
+
+def _canon_import_graph(t):
+    if t is None:
+        return ABSENT
+    g, nodes, deps = t
+    ns = []
+    for n in (nodes if nodes is not None else []):
+        ns.append(norm(n) if not hasattr(n, "_schema") else ["ImportNode", norm(n.scope_id), norm(n.symbol_type), norm(n.symbol_id), norm(n.symbol_name),
+                                                              norm(n.unit_id) if n.unit_id is not None else -1])
+    return {"graph": graph_canon(g, attrs=True), "nodes": ns, "deps": ABSENT if deps is None else _sorted([[norm(a), norm(b)] for a, b in deps.edges])}
+
+
+def _build_type_graph(i, v):
+    cs = _cs()
+    g = cs.BasicGraph()
+    ids = _ids(i, v)
+    for a, b in zip(ids, ids[1:]):
+        g.add_edge(a, b, cs.TypeGraphEdge(parent_name="P%d" % b, name="C%d" % a, parent_pos=a % 2))
+    return g
+
+
+def _build_module_symbols(i, v):
+    ids = _ids(i, v)
+    rows = [{"module_id": 100, "symbol_name": "src", "unit_ext": None, "lang": None, "parent_module_id": 0, "symbol_type": 0, "unit_path": None, "hash": None}]
+    for k in ids:
+        rows.append({"module_id": k, "symbol_name": "u%d" % k, "unit_ext": ".py", "lang": "python", "parent_module_id": 100,
+                     "symbol_type": 1, "unit_path": "/w/src/u%d.py" % k, "hash": "h%d" % k})
+    return rows
+
+
+def _one_to_many(name, attr, save, read, lo=1):
+    return MapFamily(name, attr, lambda L, k, v: getattr(L, save)(k, v), lambda L, k: getattr(L, read)(k),
+                     lambda i, v: list(_ids(i, v, lo)), canon=lambda o: norm(list(o)) if o is not None else ABSENT, empties=False)
+
+
+def _map_families():
+    F = []
+    F.append(_one_to_many("UnitIDToMethodIDLoader", "_unit_id_to_method_id_loader", "save_unit_id_to_method_ids", "convert_unit_id_to_method_ids"))
+    F.append(_one_to_many("UnitIDToClassIDLoader", "_unit_id_to_class_id_loader", "save_unit_id_to_class_ids", "convert_unit_id_to_class_ids"))
+    F.append(_one_to_many("ClassIDToStmtIDLoader", "_class_id_to_stmt_id_loader", "save_class_id_to_stmt_ids", "convert_class_id_to_stmt_ids"))
+    F.append(_one_to_many("MethodIDToStmtIDLoader", "_method_id_to_stmt_id_loader", "save_method_id_to_stmt_ids", "convert_method_id_to_stmt_ids"))
+    F.append(_one_to_many("UnitIDToNamespaceIDLoader", "_unit_id_to_namespace_id_loader", "save_unit_id_to_namespace_ids", "convert_unit_id_to_namespace_ids"))
+    F.append(_one_to_many("UnitIDToVariableIDLoader", "_unit_id_to_variable_id_loader", "save_unit_id_to_variable_ids", "convert_unit_id_to_variable_ids"))
+    F.append(_one_to_many("UnitIDToImportStmtIDLoader", "_unit_id_to_import_stmt_id_loader", "save_unit_id_to_import_stmt_ids", "convert_unit_id_to_import_stmt_ids"))
+    F.append(_one_to_many("MethodIDToParameterIDLoader", "_method_id_to_parameter_id_loader", "save_method_id_to_parameter_ids", "convert_method_id_to_parameter_ids"))
+    F.append(_one_to_many("ClassIDToMethodIDLoader", "_class_id_to_method_id_loader", "save_class_id_to_method_ids", "convert_class_id_to_method_ids"))
+    F.append(_one_to_many("ClassIDToFieldIDLoader", "_class_id_to_field_id_loader", "save_class_id_to_field_ids", "convert_class_id_to_field_ids"))
+    F.append(MapFamily("UnitIDToStmtIDLoader", "_unit_id_to_stmt_id_loader", lambda L, k, v: L.save_unit_id_to_stmt_ids(k, v),
+                       lambda L, k: L.convert_unit_id_to_stmt_ids(k),
+                       lambda i, v: list(range(100 * i + 1, 100 * i + {"A": 6, "B": 3, "E": 1}[v])), canon=lambda o: norm(list(o)), empties=False))
+    F.append(MapFamily("ClassIdToNameLoader", "_class_id_to_class_name_loader", lambda L, k, v: L.save_class_id_to_class_name(k, v),
+                       lambda L, k: L.convert_class_id_to_class_name(k), lambda i, v: {"A": "Cls%d" % i, "B": "Other"}[v],
+                       canon=lambda o: ABSENT if o is None or o == -1 else norm(o), empties=False))
+    F.append(MapFamily("MethodIDToMethodNameLoader", "_method_id_to_method_name_loader", lambda L, k, v: L.save_method_id_to_method_name(k, v),
+                       lambda L, k: L.convert_method_id_to_method_name(k), lambda i, v: {"A": "meth%d" % i, "B": "dup"}[v],
+                       canon=lambda o: ABSENT if o is None or o == -1 else norm(o), empties=False))
+    F.append(MapFamily("ClassIDToMethodsLoader", "_class_id_to_methods_loader", lambda L, k, v: L.save_methods_in_class(k, v),
+                       lambda L, k: L.get_methods_in_class(k), _build_methods_in_class, canon=lambda o: norm(list(o)), empties=False))
+    F.append(MapFamily("CallStmtIDToCallFormatInfoLoader", "_call_stmt_id_to_call_format_info_loader",
+                       lambda L, k, v: L.save_stmt_id_to_call_stmt_format(k, v), lambda L, k: L.convert_stmt_id_to_call_stmt_format(k),
+                       _build_call_format, canon=lambda o: ABSENT if o is None else row_dict(o if isinstance(o, dict) else o.to_dict()), empties=False))
+    F.append(MapFamily("MethodIDToMethodDeclFormatLoader", "_method_id_to_method_decl_format_loader",
+                       lambda L, k, v: L.save_method_id_to_method_decl_format(k, v), lambda L, k: L.convert_method_id_to_method_decl_format(k),
+                       _build_decl_format, canon=lambda o: ABSENT if o is None else row_dict(o if isinstance(o, dict) else o.to_dict()), empties=False))
+    F.append(MapFamily("ExternalSymbolIDCollectionLoader", "_external_symbol_id_collection_loader",
+                       lambda L, k, v: L.save_method_external_symbol_id_collection(k, v), lambda L, k: L.get_method_external_symbol_id_collection(k),
+                       lambda i, v: {"n%d" % k: -k for k in _ids(i, v)}, canon=lambda o: as_set(o) if not isinstance(o, dict) else as_set(list(o.values())),
+                       ))
+    F[-1].canon_saved = lambda val: as_set(list(val.values()))
+    F.append(MapFamily("EntryPointsLoader", "_entry_points_loader", lambda L, k, v: L.save_entry_points(v), lambda L, k: L.get_entry_points(),
+                       lambda i, v: set(_ids(i, v)), canon=as_set, single=False, mode="union"))
+    F.append(MapFamily("MethodInternalCalleesLoader", "_method_internal_callees_loader", lambda L, k, v: L.save_method_internal_callees(k, v),
+                       lambda L, k: L.get_method_internal_callees(k), _build_callees, canon=lambda o: ABSENT if o is None else as_set(o)))
+    F.append(MapFamily("MethodDefUseSummaryLoader", "_method_def_use_summary_loader", lambda L, k, v: L.save_method_def_use_summary(k, v),
+                       lambda L, k: L._method_def_use_summary_loader.method_summary_records.get(k), _build_def_use,
+                       canon=lambda o: ABSENT if o is None else ["MethodDefUseSummary", {f.name: as_set(getattr(o, f.name)) for f in dataclasses.fields(o)}]))
+    F.append(MapFamily("MethodSummaryLoader[template]", "_method_summary_template_loader", lambda L, k, v: L.save_method_summary_template(k, v),
+                       lambda L, k: L.get_method_summary_template(k), _build_template, canon=_canon_summary))
+    F.append(MapFamily("MethodSummaryLoader[instance]", "_method_summary_template_instance",
+                       lambda L, k, v: L.save_method_summary_instance(hash(v.key), v), lambda L, k: L.get_method_summary_instance(hash(key_callsite(k))),
+                       _build_instance, canon=_canon_summary))
+    F.append(MapFamily("CallGraphLoader[p1]", "_classified_method_call_loader", lambda L, k, v: L.save_classified_method_call(v),
+                       lambda L, k: L.get_classified_method_call(), _build_call_graph, canon=lambda g: ABSENT if g is None else graph_canon(g), single=True))
+    F.append(MapFamily("CallGraphLoader[p2]", "_prelim_call_graph_loader", lambda L, k, v: L.save_call_graph_p2(v),
+                       lambda L, k: L.get_call_graph_p2(), _build_call_graph, canon=lambda g: ABSENT if g is None else graph_canon(g), single=True))
+    F.append(MapFamily("CallPathLoader", "_global_call_path_loader", lambda L, k, v: L.save_call_paths_p3(v),
+                       lambda L, k: L.get_call_paths_p3(), _build_call_paths, canon=as_set, single=True))
+    F.append(MapFamily("GroupedMethodsLoader", "_grouped_methods_loader", lambda L, k, v: L.save_grouped_methods(v),
+                       lambda L, k: L.get_grouped_methods(), _build_grouped, single=True,
+                       canon=lambda o: ABSENT if o is None else {f.name: as_set(getattr(o, f.name)) for f in dataclasses.fields(o)}))
+    F.append(MapFamily("ImportGraphLoader", "_import_graph_loader", _save_import_graph, _read_import_graph, _build_import_graph,
+                       canon=_canon_import_graph, single=True))
+    F[-1].canon_saved = lambda val: _canon_import_graph((val[0], sorted(val[1].values(), key=lambda n: (n.unit_id, n.symbol_id)), val[2]))
+    F.append(MapFamily("TypeGraphLoader", "_type_graph_loader", lambda L, k, v: L.save_type_graph(v), lambda L, k: L.get_type_graph(),
+                       _build_type_graph, canon=lambda g: ABSENT if g is None else graph_canon(g), single=True))
+    F.append(MapFamily("StmtIDToScopeIDLoader", "_stmt_id_to_scope_id_loader", lambda L, k, v: L.save_stmt_id_to_scope_id(v),
+                       lambda L, k: {s: L._stmt_id_to_scope_id_loader.get(s) for s in range(100 * k, 100 * k + 12) if L._stmt_id_to_scope_id_loader.get(s) != -1},
+                       lambda i, v: {s: s % 7 + {"A": 0, "B": 50}[v] for s in _ids(i, v)}, canon=dict_canon, mode="update", empties=False))
+    F.append(MapFamily("UniqueSymbolIDAssignerLoader", "_unique_symbol_id_assigner_loader", lambda L, k, v: L.save_max_gir_id(v),
+                       lambda L, k: (L.get_max_gir_id(), L._unique_symbol_id_assigner_loader.positive_symbol_id, L._unique_symbol_id_assigner_loader.negative_symbol_id),
+                       lambda i, v: {"A": 1234, "B": 20001}[v], single=True, empties=False,
+                       canon=lambda t: norm(t) if isinstance(t, tuple) else norm(t)))
+    F[-1].canon_saved = lambda val: [val, (val + 10000 + 9999) // 10000 * 10000, -120]
+    F.append(MapFamily("ModuleSymbolsLoader", "_module_symbols_loader", lambda L, k, v: L.save_module_symbols(v),
+                       lambda L, k: L.get_module_symbol_table(), _build_module_symbols, canon=rows_of, single=True))
+    F[-1].canon_saved = lambda val: [row_dict(r) for r in val]
+    return F
+
+
+_MAPS = None
+
+
+def map_families():
+    global _MAPS
+    if _MAPS is None:
+        _MAPS = {f.name: f for f in _map_families()}
+    return _MAPS
+
+
+def _map_expected(fam, saves, i):
+    """saves: list of (id, variant) in order. Canonical content a read of id i must return; None = not judged."""
+    mine = [(j, v) for j, v in saves if (j == i or fam.mode == "union")]
+    if fam.single:
+        mine = list(saves)
+    if not mine:
+        return None
+    cs = getattr(fam, "canon_saved", None) or fam.canon
+    if fam.mode == "union":
+        u = set()
+        for j, v in saves:
+            u |= set(fam.build(j, v))
+        return as_set(u)
+    if fam.mode == "update":
+        d = {}
+        for j, v in saves:
+            if j == i:
+                d.update(fam.build(j, v))
+        return dict_canon(d)
+    j, v = mine[-1]
+    return cs(fam.build(j, v))
+
+
+def run_map_history(fam_name, history, ws_root):
+    """history ops: ['save', i, variant] | ['export'] | ['restore']. Closing: read all live, export, fresh restore, read all."""
+    fam = map_families()[fam_name]
+    mon = install_write_monitor()
+    ws = make_workspace(os.path.join(ws_root, "ws"))
+    famname = fam.name.split("[")[0]
+    failures = []
+    reads = 0
+    L = new_loader(ws)
+    saves = []        # what the live loader was given
+    exported = []     # what the files hold (saves at the time of the last export)
+    nfail0 = len(mon.failed)
+    out_text = []
+    restored = False
+    resaved = set()
+
+    def fail(stage, cls, detail, i, step, fam_override=None):
+        failures.append({"signature": "%s:%s:%s" % (fam_override or famname, stage, cls), "detail": detail, "id": i, "step": step})
+
+    def read_all(Lx, model, stage0, step):
+        nonlocal reads
+        for i in fam.ids():
+            want = _map_expected(fam, model, i)
+            if want is None:
+                continue
+            stage = stage0
+            if stage0 == "save-get" and restored and i not in resaved and not fam.single and fam.mode == "replace":
+                stage = "save-export-restore-get"      # the live loader is a restored one and the item came from the files
+            elif stage0 == "save-get" and restored and not resaved:
+                stage = "save-export-restore-get"
+            reads += 1
+            with Capture() as cap:
+                try:
+                    got = fam.canon(fam.read(Lx, i))
+                except BaseException as e:
+                    if isinstance(e, KeyboardInterrupt):
+                        raise
+                    got = ("raised", type(e).__name__, innermost_lian_frame(e.__traceback__), str(e)[:200])
+            out_text.append(cap.text())
+            if got == want:
+                continue
+            wf = [f for f in mon.failed[nfail0:]]
+            if stage != "save-get" and wf:
+                f = wf[-1]
+                fail("save-export", "feather-write-failed[%s]" % f["type"],
+                     "the write of %s failed (%s); the restored loader returns %s for item %d" % (os.path.basename(f["path"]), f["message"][:140], json.dumps(got, default=str)[:120], i), i, step)
+                continue
+            fo, cls, detail = classify_plain(famname, want, got, stage)
+            if is_empty_canon(want) or want in ([], {}) or (isinstance(want, dict) and all(v in ([], {}) for v in want.values())):
+                cls = "empty-item-not-exported" if stage != "save-get" else "empty-item-reads-absent"
+            fail(stage, cls, "item %d: %s" % (i, detail), i, step)
+
+    def do_export():
+        with Capture() as cap:
+            L.export()          # the public operation: every loader the Loader knows, bundles and indexes
+        out_text.append(cap.text())
+
+    try:
+        for step, op in enumerate(history):
+            try:
+                if op[0] == "save":
+                    if op[2] == "E" and not fam.empties:
+                        continue
+                    with Capture() as cap:
+                        fam.save(L, op[1], fam.build(op[1], op[2]))
+                    out_text.append(cap.text())
+                    saves.append((op[1], op[2]))
+                    resaved.add(op[1])
+                elif op[0] == "export":
+                    do_export()
+                    if saves:
+                        exported = list(saves)
+                elif op[0] == "restore":
+                    with Capture() as cap:
+                        L2 = new_loader(ws)
+                        L2.restore()
+                    out_text.append(cap.text())
+                    read_all(L2, exported, "save-export-restore-get", step)
+                    L, saves = L2, list(exported)
+                    restored, resaved = True, set()
+            except BaseException as e:
+                if isinstance(e, KeyboardInterrupt):
+                    raise
+                if restored:
+                    fail("restore-" + op[0], "restored-loader-cannot-continue", "%s on a restored loader raised %s at %s: %s" % (
+                        op, type(e).__name__, innermost_lian_frame(e.__traceback__), str(e)[:160]), 0, step)
+                else:
+                    fail(op[0], "op-raised[%s@%s]" % (type(e).__name__, innermost_lian_frame(e.__traceback__)), "%s raised %s: %s" % (op, type(e).__name__, str(e)[:160]), 0, step)
+                return {"failures": failures, "reads": reads}
+        step = len(history)
+        read_all(L, saves, "save-get", step)
+        try:
+            do_export()
+            if saves:
+                exported = list(saves)
+            with Capture() as cap:
+                L2 = new_loader(ws)
+                L2.restore()
+            out_text.append(cap.text())
+            read_all(L2, exported, "save-export-restore-get", step)
+        except BaseException as e:
+            if isinstance(e, KeyboardInterrupt):
+                raise
+            if restored:
+                fail("restore-export", "restored-loader-cannot-continue", "export on a restored loader raised %s at %s: %s" % (
+                    type(e).__name__, innermost_lian_frame(e.__traceback__), str(e)[:160]), 0, step)
+            else:
+                fail("export", "op-raised[%s@%s]" % (type(e).__name__, innermost_lian_frame(e.__traceback__)), "closing export/restore raised %s: %s" % (type(e).__name__, str(e)[:160]), 0, step)
+    finally:
+        shutil.rmtree(ws, ignore_errors=True)
+    return {"failures": failures, "reads": reads, "output": "".join(out_text)[-600:]}
